@@ -491,6 +491,14 @@ class Interp:
                 return args[0]            # an extent is an integer already
             if n in ('int', 'bool') and len(args) == 1 and isinstance(args[0], (int, bool)):
                 return {'int': int, 'bool': bool}[n](args[0])
+            if n in ('max', 'min', 'sum', 'abs', 'any', 'all') and not kwargs:
+                flat = list(args[0]) if len(args) == 1 and isinstance(args[0], (list, tuple)) else list(args)
+                if n == 'abs' and len(args) == 1 and isinstance(args[0], int):
+                    return abs(args[0])
+                if flat and all(isinstance(a, (int, bool)) and not isinstance(a, Sym) for a in flat) or \
+                        (flat and all(isinstance(a, str) for a in flat) and n in ('max', 'min')):
+                    return {'max': max, 'min': min, 'sum': sum, 'any': any, 'all': all}[n](flat)
+                raise Unmodelled(f'{n}() of non-constant values')
             if n == 'repr' and len(args) == 1 and isinstance(args[0], (str, int)):
                 return repr(args[0])
             if n == 'isinstance':
